@@ -249,8 +249,15 @@ func init() {
 			// that never returns is caught by the framework's per-case cap, which applies the
 			// same quiescence rule to the whole child (hang@<frame> if every goroutine is parked,
 			// inconclusive if something is still running) and restarts the child.
+			// As in the gRPC server, the request's context is cancelled when the handler
+			// returns: that is what stops the goroutines of a map-parallel whose result was
+			// not consumed to the end. (With a context that is never cancelled they live
+			// on and read a world that a later case edits, which is not a schedule the
+			// server can produce.)
 			panicked, class, frame, stack = core.Protect(func() {
-				_, rerr = service.Evaluate(context.Background(), request)
+				ctx, cancel := context.WithCancel(context.Background())
+				defer cancel()
+				_, rerr = service.Evaluate(ctx, request)
 			})
 			switch {
 			case panicked:
